@@ -403,6 +403,14 @@ def check_webvtt(case, rec):
         rec.label("dropped-absolute")
         rec.nontrivial(True)
         return
+    # with fit-to-screen the cue box must end inside the safe area, paddings or not
+    # (position = left edge + left padding, size = width - paddings, so position + size <= x + w)
+    if case["fit"] and R["origin"] and R["origin"][0] <= 90 and R["origin"][1] <= 95 \
+            and "position" in sm and "size" in sm:
+        right = _pct(sm["position"], signed=True) + _pct(sm["size"], signed=True)
+        require(right <= 90 + Fraction(11, 1000),
+                lambda: f"webvtt: cue box ends at {float(right)}% (position {sm['position']} + size {sm['size']}), "
+                        f"beyond the 90% safe-area edge; layout {case['layout']}")
     # values, for layouts without padding (padding arithmetic is C12's subject)
     if not R["padding"] and R["origin"]:
         require("position" in sm or R["origin"][0] == 0 or True, "")
